@@ -502,7 +502,7 @@ def call_container_method(I: Interp, recv: SV, name: str, args, kwargs, fr: Fram
             st.assume_wt(v)
             j = z3.Int("j!pop")
             src = z3.Select(st.arr("lel"), r)
-            st.setarr("lel", z3.Store(st.arr("lel"), r, z3.Lambda([j], z3.If(j < i, z3.Select(src, j), z3.Select(src, j + 1)))))
+            st.setarr("lel", z3.Store(st.arr("lel"), r, smt.index_map(st, j, z3.If(j < i, z3.Select(src, j), z3.Select(src, j + 1)))))
             st.setarr("llen", z3.Store(st.arr("llen"), r, smt.simp(n - 1)))
             return v
         if name == "insert":
@@ -512,7 +512,7 @@ def call_container_method(I: Interp, recv: SV, name: str, args, kwargs, fr: Fram
             v = I.to_sv(args[1])
             j = z3.Int("j!ins")
             src = z3.Select(st.arr("lel"), r)
-            st.setarr("lel", z3.Store(st.arr("lel"), r, z3.Lambda([j], z3.If(j < i, z3.Select(src, j), z3.If(j == i, v.t, z3.Select(src, j - 1))))))
+            st.setarr("lel", z3.Store(st.arr("lel"), r, smt.index_map(st, j, z3.If(j < i, z3.Select(src, j), z3.If(j == i, v.t, z3.Select(src, j - 1))))))
             st.setarr("llen", z3.Store(st.arr("llen"), r, smt.simp(n + 1)))
             return const(None)
         if name == "remove":
@@ -525,7 +525,7 @@ def call_container_method(I: Interp, recv: SV, name: str, args, kwargs, fr: Fram
             jj = z3.Int("j!rm0")
             st.assume(z3.And(p >= 0, p < n, z3.Select(src, p) == x.t, z3.ForAll([jj], z3.Implies(z3.And(jj >= 0, jj < p), z3.Select(src, jj) != x.t))))
             j = z3.Int("j!rm")
-            st.setarr("lel", z3.Store(st.arr("lel"), r, z3.Lambda([j], z3.If(j < p, z3.Select(src, j), z3.Select(src, j + 1)))))
+            st.setarr("lel", z3.Store(st.arr("lel"), r, smt.index_map(st, j, z3.If(j < p, z3.Select(src, j), z3.Select(src, j + 1)))))
             st.setarr("llen", z3.Store(st.arr("llen"), r, smt.simp(n - 1)))
             return const(None)
         if name == "clear":
